@@ -73,6 +73,17 @@ pub fn verify_fri_proof<
 ) -> Result<()> {
     validate_fri_proof_shape::<F, C, D>(proof, instance, params)?;
 
+    // The caller-supplied caps and openings must match the instance one to one: the query rounds
+    // below `zip` over them, and a short list would silently skip the corresponding checks.
+    ensure!(
+        initial_merkle_caps.len() == instance.oracles.len(),
+        "Number of initial Merkle caps does not match the number of oracles."
+    );
+    ensure!(
+        openings.batches.len() == instance.batches.len(),
+        "Number of opening batches does not match the FRI instance."
+    );
+
     // Size of the LDE domain.
     let n = params.lde_size();
 
